@@ -26,8 +26,28 @@ func (p Persist) Load(ctx context.Context, name string) ([]byte, error) {
 func (p Persist) Store(ctx context.Context, name string, bytes []byte) error {
 	path := filepath.Join(p.basepath, name)
 	_, err := os.Stat(path)
-	if os.IsNotExist(err) {
-		return os.WriteFile(filepath.Join(p.basepath, name), bytes, 0644)
+	if !os.IsNotExist(err) {
+		// either the complete file is there already, or Stat failed
+		return err
+	}
+	// Write under a temporary name (one that is not a node name) and rename
+	// into place, so that the final name only ever holds complete contents.
+	tmp, err := os.CreateTemp(p.basepath, name+".tmp-*")
+	if err != nil {
+		return err
+	}
+	_, err = tmp.Write(bytes)
+	if cerr := tmp.Close(); err == nil {
+		err = cerr
+	}
+	if err == nil {
+		err = os.Chmod(tmp.Name(), 0644)
+	}
+	if err == nil {
+		err = os.Rename(tmp.Name(), path)
+	}
+	if err != nil {
+		os.Remove(tmp.Name())
 	}
 	return err
 }
